@@ -88,10 +88,45 @@ def fixed_config():
                 demographics=[dict(type='deaths', death_rate=40)])
 
 
+def _killer_class():
+    """ impl.make_killer defines its Intervention class inside a function, so instances cannot be pickled BY PYTHON's rules
+        (a local class has no importable name) — nothing starsim could do about it.  The same class (copied from
+        impl.make_killer) is therefore created once here and registered under a module-level name, so that the pickle and
+        save/load restore modes apply to the zoo's killer entries as well. """
+    import starsim as ss
+    if 'Killer' not in globals():
+        class Killer(ss.Intervention):
+            def __init__(self, p=0.05, **kw2):
+                super().__init__(**kw2)
+                self.define_pars(p_kill=ss.bernoulli(p=p))
+            def step(self):
+                uids = self.pars.p_kill.filter(self.sim.people.auids)
+                if len(uids): self.sim.people.request_death(uids)
+                return uids
+        Killer.__module__ = __name__
+        Killer.__qualname__ = 'Killer'
+        globals()['Killer'] = Killer
+    return globals()['Killer']
+
+
+def build_zoo(cfg):
+    """ a configuration in plain harness/impl.py format (the scenario zoo): impl.build_sim, with the interventions built here
+        (same order) so that a `killer` is an instance of the picklable module-level copy of impl.make_killer's class """
+    intv = []
+    for i in cfg.get('interventions', []):
+        if i['type'] == 'killer':
+            intv.append(_killer_class()(i.get('p', 0.05), name=i.get('name', 'killer'), **impl._own_time(i)))
+        else:
+            intv.append(impl._intervention(i))
+    return impl.build_sim(dict(cfg, interventions=[]), extra_interventions=intv)
+
+
 def build(cfg):
     """ impl.build_sim plus an optional own timestep / duration distribution for the diseases (copied from impl.build_sim, which
         has no such options) """
     import starsim as ss
+    if 'dur_dists' not in cfg and 'disease_dt_ratio' not in cfg:
+        return build_zoo(cfg)       # plain impl format (zoo entries); this module's own generators always set dur_dists
     pars = dict(n_agents=cfg['n_agents'], rand_seed=cfg.get('rand_seed', 1), verbose=0)
     for k in ('unit', 'dt', 'start', 'dur', 'stop', 'pop_scale'):
         if cfg.get(k) is not None:
@@ -425,6 +460,15 @@ def reference(cfg):
     return _ref_cache[key]
 
 
+def reads_global(cfg):
+    """ does the OUTCOME of this configuration depend on the process-global NumPy generator (C01 findings: Births.get_births,
+        NCD, RandomNet with an odd n_contacts, non-leaky sir_vaccine)?  Structural, because almost every run merely TOUCHES that
+        generator (RandomNet's sc.randround of a whole number draws from it without using the draw) """
+    return (any(d['type'] == 'births' for d in cfg.get('demographics', [])) or any(d['type'] in ('ncd', 'syphilis') for d in cfg.get('diseases', []))
+            or any(n['type'] == 'random' and n.get('n_contacts', 4) % 2 for n in cfg.get('networks', []))
+            or any(i['type'] == 'sir_vx' and i.get('leaky') is False for i in cfg.get('interventions', [])))
+
+
 def final_diffs(cfg, ex, script):
     """ Compare the end state of every continued sim with the uninterrupted reference; list of (signature, what) """
     fails = []
@@ -638,6 +682,163 @@ def oracle_guards(cfg):
     return fails
 
 
+# ---------------------------------------------------------------------------
+# the scenario zoo (harness/zoo.py): the pause / restore / resume oracle on every entry, one variant each
+
+ZOO_KINDS = ['after-step_die', 'after-people-update_results', 'before-finish_steps', 'between-finish_steps', 'after-people-finish_step',
+             'inside-step', 'after-sim-finish_step']
+
+
+def step_points(sim, s):
+    """ pause points (number of executed functions) inside the s-th step of the sim's own timeline, by kind.  The first five lie
+        between death resolution (people.step_die) and the end of the step (sim.finish_step): deaths resolved but not yet
+        counted / counted but the dead not yet removed / some modules' clocks advanced and others not / the dead removed but
+        the sim clock not yet advanced """
+    labels = list(sim.loop.plan.func_label); names = list(sim.loop.plan.func_name)
+    starts = [i for i, l in enumerate(labels) if l == 'sim.start_step']
+    ends = [i for i, l in enumerate(labels) if l == 'sim.finish_step']
+    s = max(0, min(s, len(starts) - 1, len(ends) - 1))
+    lo, hi = starts[s], ends[s]
+    rng = range(lo, hi + 1)
+    def after(pred):
+        for i in rng:
+            if pred(i): return i + 1
+        return None
+    die = next((i for i in rng if labels[i] == 'people.step_die'), None)
+    pts = {
+        'inside-step': after(lambda i: names[i] == 'step' and not labels[i].startswith('people')),
+        'after-step_die': after(lambda i: labels[i] == 'people.step_die'),
+        'after-people-update_results': after(lambda i: labels[i] == 'people.update_results'),
+        'before-finish_steps': after(lambda i: die is not None and i >= die and i + 1 <= hi and names[i] != 'finish_step' and names[i + 1] == 'finish_step'),
+        'between-finish_steps': after(lambda i: names[i] == 'finish_step' and i + 1 <= hi and names[i + 1] == 'finish_step' and not labels[i].startswith('people')),
+        'after-people-finish_step': after(lambda i: labels[i] == 'people.finish_step'),
+        'after-sim-finish_step': hi + 1,
+    }
+    return {k: v for k, v in pts.items() if v is not None}, s
+
+
+def zoo_plan(name, cfg, i, seed):
+    """ the one variant of zoo entry number i: a pause after a single function inside a step (kind rotating; five of the seven
+        kinds lie between death resolution and the end of the step), one restore mode (rotating), a second mid-step pause of
+        another kind two steps later on the copy, and a pause via a stop time (at / between time points, rotating) on the original """
+    probe = fresh_sim(cfg)
+    npts = int(probe.t.npts)
+    s1 = max(1, npts // 3)
+    pts1, s1 = step_points(probe, s1)
+    kinds1 = [k for k in ZOO_KINDS if k in pts1]
+    kind = kinds1[(i + seed) % len(kinds1)]
+    pts2, s2 = step_points(probe, min(s1 + 2, npts - 2))
+    kinds2 = [k for k in ZOO_KINDS if k in pts2]
+    kind2 = kinds2[(i + seed + 3) % len(kinds2)]
+    k, k2 = pts1[kind], pts2[kind2]
+    tv = probe.t.timevec
+    j = min(npts - 1, s1 + 1 + (i + seed) % 3)
+    between = ((i + seed) // 3) % 2 == 1
+    if hasattr(tv[0], 'toordinal'):
+        import datetime as dtm
+        d = tv[j]
+        until = ('date', (dtm.date(d.year, d.month, d.day) + dtm.timedelta(days=1 if between else 0)).isoformat())
+    else:
+        until = ('num', float(tv[j]) + (0.37 * float(probe.t.dt) if between else 0.0))
+    return dict(kind=kind, k=int(k), kind2=kind2, k2=int(k2) if k2 > k else None, mode=MODES[1 + (i + seed) % 3], until=list(until),
+                # entries whose outcome depends on the process-global NumPy generator (C01 findings; by structure, since the
+                # zoo's `global-rng` tag misses pop-scale-fraction, which has Births): that generator is not part of the Sim
+                # object, so a twin of such a sim cannot be independent of its original (attributed to C01); the original is
+                # continued from the generator state of the moment of the fork.  Everything else is checked as for any entry.
+                shield=bool(reads_global(cfg)))
+
+
+def oracle_zoo(cfg, plan, tmpdir):
+    """
+    One sim: single-step to a pause inside a step -> restore (twin fork) -> the COPY is single-stepped to the end (recording
+    sim.now after every function), restored once more at a second mid-step point, finished with run(); the ORIGINAL must not
+    have moved; it then does run(until=u) (the stop point is re-derived from the copy's trace of sim.now: right after the first
+    function after which `u and sim.now > u`), is restored again at that stop and finished with run().  Both must end exactly
+    like the uninterrupted reference run.
+    """
+    fails = []
+    mode, k, kind = plan['mode'], plan['k'], plan['kind']
+    sig = lambda what, **kw: dict(dict(oracle='resume', what=what, mode=mode, boundary=kind), **kw)
+    ref = reference(cfg)
+    sim = fresh_sim(cfg)
+    n = len(sim.loop.plan)
+    with warnings.catch_warnings():
+        warnings.simplefilter('ignore')
+        for _ in range(k):
+            sim.loop.run_one_step()
+        try:
+            copy = restore(sim, mode, tmpdir)
+        except Exception as e:
+            return [(sig('restore-raised'), f'{mode} of a sim paused after {k} of {n} functions ({kind}) raised {type(e).__name__}: {e}')]
+        pre = control(sim)
+        if control(copy) != pre:
+            fails.append((sig('control-state-changed'), f'{mode} after {k} functions ({kind}) changed the control state {pre} -> {control(copy)}'))
+        gstate = np.random.get_state() if plan.get('shield') else None
+        # --- the copy: one function at a time to the end
+        trace = {}
+        try:
+            for i in range(k, n):
+                if plan.get('k2') is not None and i == plan['k2']:
+                    copy = restore(copy, mode, tmpdir)
+                copy.loop.run_one_step()
+                trace[i] = copy.now
+            copy.run()
+        except Exception as e:
+            fails.append((sig('resume-raised'), f'single-stepping / finishing the {mode} copy made after {k} of {n} functions ({kind}; restored again after {plan.get("k2")}) raised {type(e).__name__}: {e}'))
+            return fails
+        post = control(sim)
+        if post != pre:
+            fails.append((sig('copy-moves-original'), f'running the {mode} copy (paused after {k} functions, {kind}) changed the original: {pre} -> {post}'))
+        if gstate is not None:
+            np.random.set_state(gstate)
+        # --- the original: a pause via a stop time, a restore at that pause, then to the end
+        val, _ = until_value(sim, tuple(plan['until']))
+        try:
+            sim.run(until=val)
+        except Exception as e:
+            fails.append((dict(oracle='until', what='run-raised'), f'sim.run(until={plan["until"][1]}) on a sim paused after {k} functions raised {type(e).__name__}: {e}'))
+            return fails
+        expect = n
+        for i in range(k, n):
+            if val and trace[i] > val:
+                expect = i + 1; break
+        if sim.loop.index != expect:
+            fails.append((dict(oracle='until', what='stop-point'), f'sim.run(until={plan["until"][1]}) from function {k} stopped after {sim.loop.index} functions; the first function after which sim.now > until is #{expect} of {n}'))
+        if bool(sim.complete) != (sim.loop.index == n):
+            fails.append((dict(oracle='until', what='complete-flag'), f'after sim.run(until={plan["until"][1]}): complete={sim.complete} with {sim.loop.index} of {n} functions executed'))
+        stop_at = int(sim.loop.index)
+        try:
+            sim = restore(sim, mode, tmpdir)
+            if not sim.complete:
+                sim.run()
+        except Exception as e:
+            fails.append((sig('resume-raised'), f'{mode} + run() of the original stopped by until={plan["until"][1]} after {stop_at} of {n} functions raised {type(e).__name__}: {e}'))
+            return fails
+    for label, s_, how in (('copy', copy, f'single-stepped to the end, restored again after {plan.get("k2")} ({plan.get("kind2")})'),
+                           ('original', sim, f'run(until={plan["until"][1]}) stopped after {stop_at}, restored by {mode}, run()')):
+        if not (s_.complete and s_.results_ready):
+            fails.append((dict(oracle='resume', what='not-complete', who=label), f'the {label} ({how}) did not complete after the final run()'))
+            continue
+        same, why = impl.arrays_equal(snapshot(s_), ref)
+        if not same:
+            fails.append((sig('final-state-differs'), f'paused after {k} of {n} functions ({kind}), restored by {mode}: the {label} ({how}) finishes different from the uninterrupted run: {why}'))
+    return fails
+
+
+def search_zoo(ctx, tmpdir):
+    """ every zoo configuration under one pause / restore / resume variant (rotating with the entry number and the seed) """
+    from harness import zoo
+    for i, (name, cfg) in enumerate(zoo.configs()):
+        try:
+            plan = zoo_plan(name, cfg, i, ctx.seed)
+            fails = oracle_zoo(cfg, plan, tmpdir)
+        except Exception as e:
+            ctx.count('zoo_exceptions'); ctx.notes['last_zoo_exception'] = f'{name}: {type(e).__name__}: {e}'; continue
+        ctx.count('zoo_runs'); ctx.count('zoo_boundary_' + plan['kind']); ctx.count('zoo_mode_' + plan['mode'])
+        for f_sig, f_what in fails:
+            ctx.fail(f_sig, f'[zoo:{name}] ' + f_what, dict(kind='zoo', name=name, cfg=cfg, plan=plan))
+
+
 def search(ctx):
     nconf = ctx.budget(6, 30)
     with tempfile.TemporaryDirectory(prefix='c09s_') as tmpdir:
@@ -671,6 +872,8 @@ def search(ctx):
         ctx.count('oracle_multisim')
         for f_sig, f_what in oracle_guards(fx):
             ctx.fail(f_sig, f_what, dict(kind='guards', cfg=fx))
+        # --- always exercised: the fixed zoo of unusual-but-valid configurations
+        search_zoo(ctx, tmpdir)
         for i in range(nconf):
             cfg = gen_config(ctx.rng)
             if i == 0:
@@ -713,6 +916,8 @@ def replay(ctx, data):
         elif kind == 'script':
             ex = execute_script(data['cfg'], data['script'], tmpdir)
             fails = final_diffs(data['cfg'], ex, data['script'])
+        elif kind == 'zoo':
+            fails = oracle_zoo(data['cfg'], data['plan'], tmpdir)
         else:
             fails = []
     for sig, what in fails:
